@@ -4,6 +4,8 @@
 //	load <res:threshold>*
 //	entry <id> <res> <batch> [type=<t>]      => pass | block iso <rule-index> <triggered-value> | dup   (WithResourceType)
 //	exit <id> [err]                          (err: Exit(WithError(..)))
+//	entry <id> <res> - [type=<t>]            (no WithBatchCount option: default batch 1)
+//	manyres <n>                              (enter+exit n fresh rule-less resources "#<k>")
 //	trace <id>                               (api.TraceError on the entry, live or exited)
 //	dexit <id>                               (Exit called by TWO goroutines that meet inside the completion path, see rdv)
 //	conc <res>                               => gauge
@@ -130,12 +132,14 @@ type Interp struct {
 	now   uint64
 	ents  map[uint64]*handle
 	rules []*isolation.Rule
+	fresh int
 	cur   *thread // the scheduled worker currently running (nil: the interpreter itself)
 }
 
 func New() vh.Interp {
 	vh.Silence()
 	runtime.GOMAXPROCS(1)
+	runtime.LockOSThread() // with GC off and one P the sync.Pools hand back the object just put: pooled-state leaks are deterministic
 	debug.SetGCPercent(-1)
 	it := &Interp{now: 1_900_000_000_000}
 	it.clk = vh.NewClock(it.now)
@@ -164,6 +168,7 @@ func (it *Interp) Reset() {
 		}
 	}
 	it.ents = map[uint64]*handle{}
+	it.fresh = 0
 	it.rules = nil
 	_ = isolation.ClearRules()
 	_ = flow.ClearRules()
@@ -233,7 +238,10 @@ func (it *Interp) Step(t []string, op string) string {
 		if it.live(id) {
 			return "dup"
 		}
-		opts := []sentinel.EntryOption{sentinel.WithBatchCount(u32(t[3]))}
+		var opts []sentinel.EntryOption
+		if t[3] != "-" { // "-": no batch option at all (EntryOptions default: 1)
+			opts = append(opts, sentinel.WithBatchCount(u32(t[3])))
+		}
 		if len(t) > 4 {
 			rt, ok := resTypes[strings.TrimPrefix(t[4], "type=")]
 			if !ok || !strings.HasPrefix(t[4], "type=") {
@@ -262,6 +270,18 @@ func (it *Interp) Step(t []string, op string) string {
 	case "trace":
 		if h, ok := it.ents[vh.U(t[1])]; ok {
 			sentinel.TraceError(h.e, errTraced)
+		}
+		return ""
+	case "manyres":
+		// enter and exit n fresh resources (no rule): the node map grows past base.DefaultMaxResourceAmount
+		n := int(vh.U(t[1]))
+		for i := 0; i < n; i++ {
+			it.fresh++
+			e, b := sentinel.Entry("#" + strconv.Itoa(it.fresh))
+			if b != nil {
+				return "blocked " + b.BlockType().String()
+			}
+			e.Exit()
 		}
 		return ""
 	case "dexit":
